@@ -370,19 +370,19 @@ Proof.
   apply G. exact inv_init.
 Qed.
 
-(* ---- the code that exists: endless start fragments are retained without bound ---- *)
+(* ---- the decoder before commit ccfdafa: endless start fragments were retained without bound ---- *)
 Definition start_pkt (seq : N) : packet := mkPkt seq 0 false [80; 0].   (* 0x50: Y=1, W=1; one byte *)
 
 Lemma start_run n : forall d seq, dbuf d = [] -> dbuflen d = 0 -> dbufsize d = 0 ->
-  let d' := fst (dec_run (d) (map start_pkt (repeat seq n))) in
+  let d' := fst (dec_run_old (d) (map start_pkt (repeat seq n))) in
   dfrags d' = dfrags d ++ repeat [0] n /\ dbuf d' = [] /\ dbuflen d' = 0 /\ dbufsize d' = 0.
 Proof.
   induction n as [|n IH]; intros d seq H1 H2 H3; cbn [repeat map].
   - cbn. rewrite app_nil_r. auto.
-  - unfold dec_run. cbn [dec_run_g]. 
+  - unfold dec_run_old. cbn [dec_run_g]. 
     set (d1 := mkD (dfrags d ++ [[0]]) 1 (seq_next seq) (dbuf d) (dbuflen d) (dbufsize d)).
     assert (E : dec_g false d (start_pkt seq) = (d1, DMore)) by reflexivity.
-    rewrite E. specialize (IH d1 seq H1 H2 H3). unfold dec_run in IH.
+    rewrite E. specialize (IH d1 seq H1 H2 H3). unfold dec_run_old in IH.
     destruct (dec_run_g false d1 (map start_pkt (repeat seq n))) as [d'' rs]. cbn [fst] in *.
     destruct IH as (A & B & C & D). splits; auto.
     rewrite A. unfold d1. cbn [dfrags]. now rewrite <- app_assoc.
@@ -393,7 +393,7 @@ Proof. induction k as [|k IH]; [reflexivity|]. cbn [repeat concat app nlen]. rew
 
 Theorem unbounded_start_fragments : forall B, exists hist,
   Forall (fun p => nlen (ppayload p) <= 2) hist /\
-  B < fst (retained (fst (dec_run dinit hist))) /\ B < snd (retained (fst (dec_run dinit hist))).
+  B < fst (retained (fst (dec_run_old dinit hist))) /\ B < snd (retained (fst (dec_run_old dinit hist))).
 Proof.
   intros B. exists (map start_pkt (repeat 0 (N.to_nat (B + 1)))). split.
   - apply Forall_forall. intros p Hp. apply in_map_iff in Hp. destruct Hp as (s & <- & _). cbn. lia.
